@@ -12,21 +12,21 @@ variable {α : Type} [Field α] [LinearOrder α] [IsStrictOrderedRing α]
 
 /-! adapters -/
 theorem ear33_adapters_some {tmin tmax : α} {sqrt : α → α} {m : M33 α} {r : Res2 α}
-    (h : ear33 tmax (Gen.V2.length tmin sqrt) m = some r) :
+    (h : ear33 tmax (Gen.V2.length tmin tmax sqrt) m = some r) :
     ear33Flag tmin tmax sqrt m = 1 ∧ ear33Mat tmin tmax sqrt m = r.m ∧ ear33Scl tmin tmax sqrt m = r.scl ∧
     ear33Shr tmin tmax sqrt m = r.shr := by
   simp [ear33Flag, ear33Mat, ear33Scl, ear33Shr, h]
 theorem ear33_adapters_none {tmin tmax : α} {sqrt : α → α} {m : M33 α}
-    (h : ear33 tmax (Gen.V2.length tmin sqrt) m = none) : ear33Flag tmin tmax sqrt m = 0 := by
+    (h : ear33 tmax (Gen.V2.length tmin tmax sqrt) m = none) : ear33Flag tmin tmax sqrt m = 0 := by
   simp [ear33Flag, h]
 
 theorem ear44_adapters_some {tmin tmax : α} {sqrt : α → α} {m : M44 α} {r : Res3 α}
-    (h : ear44 tmax (Gen.V3.length tmin sqrt) m = some r) :
+    (h : ear44 tmax (Gen.V3.length tmin tmax sqrt) m = some r) :
     ear44Flag tmin tmax sqrt m = 1 ∧ ear44Mat tmin tmax sqrt m = r.m ∧ ear44Scl tmin tmax sqrt m = r.scl ∧
     ear44Shr tmin tmax sqrt m = r.shr := by
   simp [ear44Flag, ear44Mat, ear44Scl, ear44Shr, h]
 theorem ear44_adapters_none {tmin tmax : α} {sqrt : α → α} {m : M44 α}
-    (h : ear44 tmax (Gen.V3.length tmin sqrt) m = none) : ear44Flag tmin tmax sqrt m = 0 := by
+    (h : ear44 tmax (Gen.V3.length tmin tmax sqrt) m = none) : ear44Flag tmin tmax sqrt m = 0 := by
   simp [ear44Flag, h]
 
 def scaleH3 (s : V3 α) : Matrix (Fin 4) (Fin 4) α := !![s.x, 0, 0, 0; 0, s.y, 0, 0; 0, 0, s.z, 0; 0, 0, 0, 1]
